@@ -8,7 +8,7 @@ CONSTANTS
   UnitKinds <- OneUnits
   ConKinds <- OneCons
   SpecKinds <- Empty
-  SimpleV <- SimpleOne
+  SimpleV <- SimpleOneSim
   DeclV <- DeclOne
   UseV <- UseOne
   FormatV <- FormatOne
